@@ -124,7 +124,7 @@ def gen_from_phi(ctx):
     rng = ctx.rng
     sizes = SIZES_Q if ctx.quick else SIZES_T
     out = []
-    reps = ctx.pick(3, 14)
+    reps = ctx.pick(5, 30)
     for d in range(1, 6):
         Lmin, Lmax, nmax = sizes[d]
         branches = ['analytic', 'force']
@@ -210,7 +210,7 @@ def gen_private(ctx):
 def gen_inbreeding(ctx):
     rng = ctx.rng
     out = []
-    reps = ctx.pick(3, 16)
+    reps = ctx.pick(5, 30)
     nmax = {1: ctx.pick(12, 40), 2: ctx.pick(8, 24), 3: ctx.pick(6, 10)}
     Lmax = {1: ctx.pick(12, 30), 2: ctx.pick(7, 10), 3: ctx.pick(4, 6)}
     for d in (1, 2, 3):
@@ -251,14 +251,22 @@ def gen_inbreeding(ctx):
     return out
 
 def gen_bbconv(ctx):
+    """small cases over exact rationals (partition form == power form exactly) and large ones in software floats"""
     rng = ctx.rng
     out = []
-    for rep in range(ctx.pick(8, 60)):
+    for rep in range(ctx.pick(8, 48)):
         p = rng.randint(2, 8)
-        n = rng.randint(1, ctx.pick(4, 10) if p <= 4 else ctx.pick(3, 5))
-        a = rng.choice([lib.dyadic(rng, 1 / 16, 8, 4), lib.dyadic(rng, 1 / 16, 64, 4)])
-        bb = rng.choice([lib.dyadic(rng, 1 / 16, 8, 4), lib.dyadic(rng, 1 / 16, 64, 4)])
-        out.append({'fn': 'bbconv', 'n': n, 'p': p, 'a': max(a, 1 / 16), 'b': max(bb, 1 / 16), 'n_float': rng.random() < 0.7})
+        n = rng.randint(1, 4 if p <= 4 else 3)
+        a = lib.dyadic(rng, 1 / 8, rng.choice([4, 32]), 3)
+        bb = lib.dyadic(rng, 1 / 8, rng.choice([4, 32]), 3)
+        out.append({'fn': 'bbconv', 'n': n, 'p': p, 'a': max(a, 1 / 8), 'b': max(bb, 1 / 8), 'n_float': rng.random() < 0.7, 'exact': True})
+    for rep in range(ctx.pick(6, 60)):
+        p = rng.randint(2, 8)
+        n = rng.randint(1, max(1, ctx.pick(12, 40) // p))
+        F = rng.choice([1 / 64, 1 / 8, 0.25, 0.5, 0.875, lib.dyadic(rng, 0.05, 0.95, 7)])
+        x = rng.choice([lib.dyadic(rng, 0.001, 0.999, 12), 1e-20, 0.5])
+        c = (1 - F) / F
+        out.append({'fn': 'bbconv', 'n': n, 'p': p, 'a': x * c, 'b': (1 - x) * c, 'n_float': True, 'exact': False})
     return out
 
 # ------------------------------------------------------------------------------------------------
@@ -269,7 +277,7 @@ def run_calls(ctx, calls, par=4):
         return []
     par = min(par, max(1, len(calls) // 8))
     chunks = [calls[i::par] for i in range(par)]
-    strip = lambda c: {k: v for k, v in c.items() if k not in ('branch', 'd', 'kind', 'admix_model')}
+    strip = lambda c: {k: v for k, v in c.items() if k not in ('branch', 'd', 'kind', 'admix_model', 'exact')}
     with ThreadPoolExecutor(max_workers=par) as ex:
         futs = [ex.submit(lib.run_impl, 'c05_impl.py', [strip(c) for c in ch], 1800) for ch in chunks]
         res = [f.result() for f in futs]
@@ -342,9 +350,7 @@ def bookkeeping(ctx, c, r):
 
 def coq_case(c, r):
     mask = r.get('mask') or []
-    common = 'shape := %s; %sns := %s; %sxxs := %s; %sphi := %s; %smask := %s; %simpl := %s'
     if c['fn'] == 'from_phi':
-        P = 'fc_'
         adm = opt(zzll(c['admix'])) if c.get('admix') is not None else 'None'
         h = hetidx(c.get('het'))
         return ('{| fc_shape := %s; fc_ns := %s; fc_xxs := %s; fc_admix := %s; fc_het := %s; fc_force := %s; fc_phi := %s; fc_mask := %s; fc_impl := %s |}'
@@ -368,7 +374,7 @@ def coq_case(c, r):
 def weight(c):
     """rough cost of the model evaluation, for sharding"""
     if c['fn'] == 'bbconv':
-        return 1
+        return max(1, (c['n'] * c['p']) ** 2 // (4 if c.get('exact', True) else 40))
     w = prod(c['shape']) * prod([n + 1 for n in c['ns']]) if c.get('admix') or c.get('kind') == 2 else 0
     w += sum(c['ns']) * sum(c['shape']) * 40 * max(1, prod([n + 1 for n in c['ns']]) // (min(c['ns']) + 1))
     return max(1, w // 20000)
@@ -379,14 +385,16 @@ def correspondence(ctx, groups):
         exprs, meta = [], {}
         for c, r in pairs:
             n = len(exprs)
-            if c['fn'] == 'bbconv':
+            if c['fn'] == 'bbconv' and c.get('exact', True):
                 ex = '{| bc_n := %d%%nat; bc_p := %d%%nat; bc_a := %s; bc_b := %s; bc_impl := %s |}' % (c['n'], c['p'], q(c['a']), q(c['b']), ql(r['data']))
+            elif c['fn'] == 'bbconv':
+                ex = '{| bd_n := %d%%nat; bd_p := %d%%nat; bd_a := %s; bd_b := %s; bd_impl := %s |}' % (c['n'], c['p'], lib.zz(c['a']), lib.zz(c['b']), zzl(r['data']))
             else:
                 ex = coq_case(c, r)
             exprs.append((n, ex)); meta[n] = (c, r)
         if not exprs:
             continue
-        # shards of roughly equal cost
+        # bins of roughly equal model-evaluation cost, one generated file per bin, run in parallel
         tot = sum(weight(meta[n][0]) for n, _ in exprs)
         nsh = max(1, min(16, len(exprs), tot // 40 + 1))
         order = sorted(range(len(exprs)), key=lambda n: -weight(meta[n][0]))
@@ -394,14 +402,6 @@ def correspondence(ctx, groups):
         for n in order:
             k = load.index(min(load)); bins[k].append(exprs[n]); load[k] += weight(meta[n][0])
         results = {}
-        for k, bn in enumerate(bins):
-            if bn:
-                pass
-        files = []
-        # coq_cases shards consecutively: feed it bin by bin through one call with an explicit order
-        flat = [e for bn in bins for e in bn]
-        shard = max(len(bn) for bn in bins)
-        # pad-free: run each bin as its own coq_cases call in parallel threads
         with ThreadPoolExecutor(max_workers=nsh) as ex:
             futs = [ex.submit(ctx.coq_cases, '%s%d' % (tag, k), HEADER, bn, '(%s %s)' % (fn, q(TOL)), 'tol 1e-10 x largest entry',
                               max(1, len(bn)), 1500, tag) for k, bn in enumerate(bins) if bn]
@@ -476,7 +476,7 @@ def predicates(ctx):
 
     dims = {1: (ctx.pick(12, 30), ctx.pick(12, 40)), 2: (ctx.pick(7, 12), ctx.pick(8, 30)), 3: (ctx.pick(4, 6), ctx.pick(4, 8)),
             4: (3, ctx.pick(2, 3)), 5: (3, 2)}
-    reps = ctx.pick(1, 4)
+    reps = ctx.pick(2, 8)
     for rep in range(reps):
         for d in range(1, 6):
             L, nmax = dims[d]
@@ -570,7 +570,7 @@ def predicates(ctx):
                     m = float(fmass(cI['xxs'], cI['shape'], cI['phi']))
                     close(ctx, 'total=trapz-mass inbreeding d=%d' % d, [math.fsum(r0['data'])], [m], 1e-11, {'call': cI, 'mass': m})
                 if 'data' in rz and 'data' in rd and finite(rz['data']):
-                    close(ctx, 'inbreeding(F=1e-9)~direct d=%d' % d, rz['data'], rd['data'], 1e-4, {'call': cI})
+                    close(ctx, 'inbreeding(F=1e-9)~direct d=%d' % d, rz['data'], rd['data'], 1e-3, {'call': cI})
             evals.append(ev_inb)
             if d >= 2:
                 k = rng.randrange(d)
@@ -635,7 +635,7 @@ def run(ctx):
         fp, pv, ib, bc = gen_from_phi(ctx), gen_private(ctx), gen_inbreeding(ctx), gen_bbconv(ctx)
     allc = fp + pv + ib + bc
     res = run_calls(ctx, allc)
-    groups = {'fp': ('fcheck', []), 'pv': ('pcheck', []), 'ib': ('icheck', []), 'bb': ('bcheck', [])}
+    groups = {'fp': ('fcheck', []), 'pv': ('pcheck', []), 'ib': ('icheck', []), 'bb': ('bcheck', []), 'bd': ('bdcheck', [])}
     for c, r in zip(allc, res):
         tag = {'from_phi': 'fp', 'private': 'pv', 'from_phi_inbreeding': 'ib', 'bbconv': 'bb'}[c['fn']]
         if c['fn'] == 'bbconv':
@@ -646,7 +646,7 @@ def run(ctx):
             ctx.case(signature=('bb', c['n'], c['p'], c['a'], c['b']), sample={'call': c, 'impl': r['data'][:4]})
             s = math.fsum(r['data'])
             close(ctx, 'betabinom-convolution-sums-to-one n=%d ploidy=%d' % (c['n'], c['p']), [s], [1.0], 1e-11, {'call': c, 'sum': s})
-            groups[tag][1].append((c, r))
+            groups[tag if c.get('exact', True) else 'bd'][1].append((c, r))
             continue
         ctx.count('%s d=%d' % (c['branch'], c['d']))
         if not classify(ctx, c, r):
